@@ -139,7 +139,11 @@ func (g *G[P, F, S]) MSMCase(t *rapid.T) {
 	if direct {
 		want = c.MultiScalarMul(refP, ks)
 	}
-	if !direct || n > 3 {
+	known := true
+	for _, o := range pts {
+		known = known && o.a != nil
+	}
+	if !direct || (n > 3 && known) {
 		sa, se := new(big.Int), new(big.Int)
 		for i := range pts {
 			sa.Add(sa, new(big.Int).Mul(ks[i], pts[i].a))
